@@ -18,18 +18,19 @@ class BetaLikelihood(_OneDimensionalLikelihood):
 
     The Beta distribution is parameterized by :math:`\alpha > 0` and :math:`\beta > 0` parameters
     which roughly correspond to the number of prior positive and negative observations.
-    We instead parameterize it through a mixture :math:`m \in [0, 1]` and scale :math:`s > 0` parameter.
+    We instead parameterize it through a mixture :math:`m \in [0, 1]` and scale :math:`s > 0` parameter
+    (the offset of one keeps both concentrations above one, i.e. the density unimodal).
 
     .. math::
         \begin{equation*}
-            \alpha = ms, \quad \beta = (1-m)s
+            \alpha = ms + 1, \quad \beta = (1-m)s + 1
         \end{equation*}
 
     The mixture parameter is the output of the GP passed through a logit function :math:`\sigma(\cdot)`.
     The scale parameter is learned.
 
     .. math::
-        p(y \mid f) = \text{Beta} \left( \sigma(f) s , (1 - \sigma(f)) s\right)
+        p(y \mid f) = \text{Beta} \left( \sigma(f) s + 1, (1 - \sigma(f)) s + 1\right)
 
     :param batch_shape: The batch shape of the learned noise parameter (default: []).
     :param scale_prior: Prior for scale parameter :math:`s`.
